@@ -63,7 +63,12 @@ PURE_BUILTINS = {
 # descriptors still reference the original font objects
 DOC_SPLITTERS = {"splitInterpolable", "splitVariableFonts"}
 # library functions that modify (what is reachable from) their arguments
-MUTATING_FUNCS = {"fonts_to_quadratic", "glyphs_to_quadratic", "addGSUBFeatureVariations", "subroutinize", "compress", "closure_glyphs", "merge", "removeOverlaps"}
+# name -> how deep below the first argument the function writes (0: the argument itself, 1: also its elements, ...):
+#   fonts_to_quadratic(list of glyph sets)  rewrites the glyph objects held by the dicts held by the list       (cu2qu.ufo)
+#   compress(ttFont) / subroutinize(ttFont) replace / rewrite the CFF table of the TTFont                      (compreffor, cffsubr)
+#   addGSUBFeatureVariations(ttFont, ..)    adds to the GSUB table of the TTFont                               (fontTools.varLib)
+MUTATING_FUNCS = {"fonts_to_quadratic": 3, "glyphs_to_quadratic": 3, "addGSUBFeatureVariations": 1, "subroutinize": 1, "compress": 1,
+                  "closure_glyphs": 3, "merge": 3, "removeOverlaps": 3}
 COPYING_BUILTINS = {"list", "tuple", "set", "frozenset", "sorted", "reversed", "dict", "OrderedDict", "defaultdict", "Counter", "deque"}
 # library functions assumed to return a NEW object that does not alias their arguments (and not to mutate them)
 FRESH_FUNCS = {
@@ -230,6 +235,11 @@ class Analysis:
         self._glob_elems = {}
         self._late = {}
         self.dunder_insts = defaultdict(set)
+        self.narrow = []  # active narrowings: (ctx key, local name, filter)
+        self.deferred = 0  # >0 while the body of a generator expression is evaluated (it runs later)
+        self.open_globs = set()  # ids of module-level containers that analysed code mutates (contents not fixed)
+        self.assumed_const_globs = set()
+        self.mutated_globs = set()
         self._load()
 
     # ---- program ----------------------------------------------------------------------------------
@@ -405,6 +415,7 @@ class Analysis:
             elif o.kind == "glob":
                 a = Alarm(st, what, o.label, self.cur.key)
                 self.globals_mut.setdefault(a.key(), a)
+                self.mutated_globs.add(id(o.py))
             elif o.kind == "cls":
                 if getattr(o.py, "__module__", "").startswith(self.pkg):
                     a = Alarm(st, what, o.label, self.cur.key)
@@ -440,6 +451,37 @@ class Analysis:
             if any(v is not ... and v for v in vals):
                 return True
             return ... if any(v is ... for v in vals) else vals[-1]
+        if isinstance(node, ast.Call) and isinstance(node.func, ast.Name) and node.func.id == "isinstance" and len(node.args) == 2 and not node.keywords \
+                and self.lookup("isinstance", ctx) is None and "isinstance" not in ctx.func.module.__dict__:
+            # isinstance(e, C) is decided like `e is None`: from the points-to set of e in the final fixpoint, when
+            # the class of every object in it is certain; the decision is kept only if the fixpoint computed
+            # under it re-derives it (solve())
+            key = (ctx.key, node.lineno, node.col_offset)
+            if self.deciding:
+                classes = self.class_tuple(node.args[1], ctx)
+                pts = self.ev(node.args[0], ctx) if classes else set()
+                if pts:
+                    verdicts = {self.instance_verdict(o, classes) for o in pts}
+                    if verdicts == {True}:
+                        self.new_decided[key] = True
+                    elif verdicts == {False}:
+                        self.new_decided[key] = False
+            if key in self.decided:
+                return self.decided[key]
+            return ...
+        if isinstance(node, ast.Compare) and len(node.ops) == 1 and isinstance(node.ops[0], (ast.Eq, ast.NotEq)) \
+                and isinstance(node.left, ast.Call) and isinstance(node.left.func, ast.Name) and node.left.func.id == "len" and len(node.left.args) == 1 \
+                and isinstance(node.left.args[0], ast.Name) and isinstance(node.comparators[0], ast.Constant) and isinstance(node.comparators[0].value, int) \
+                and self.lookup("len", ctx) is None and "len" not in ctx.func.module.__dict__:
+            # len(args) == k for the *args parameter of a context that was entered with a known number of
+            # positional arguments, read before args can have been rebound
+            nm = node.left.args[0]
+            va = getattr(ctx.func.node.args, "vararg", None)
+            n = dict(ctx.consts).get("*n")
+            if va is not None and va.arg == nm.id and n is not None and self.is_initial_read(ctx.func, nm):
+                res = n[1] == node.comparators[0].value
+                return res if isinstance(node.ops[0], ast.Eq) else not res
+            return ...
         if isinstance(node, ast.Compare) and len(node.ops) == 1 and isinstance(node.ops[0], (ast.Is, ast.IsNot)):
             r = node.comparators[0]
             if isinstance(r, ast.Constant) and r.value is None:
@@ -496,6 +538,174 @@ class Analysis:
             v = self.const_syntactic(node.operand)
             return ... if v is ... else (not v)
         return ...
+
+    # ---- string constants -------------------------------------------------------------------------------------------
+    # Attribute names and dictionary keys are strings; strings are otherwise not tracked. `strs(e)` is a purely
+    # local, syntactic evaluation: it returns the finite set of strings an expression can evaluate to when that
+    # follows from the text of the function alone (a literal; a parameter whose calling context fixes it -- see
+    # call_func; a variable whose ONLY binding is a `for` over a literal collection / over the keys of a literal
+    # dict / over a module-level constant collection), and None in every other case. None means "any string".
+    MAX_STRS = 12
+
+    def strs(self, node, ctx, none_ok=False):
+        """none_ok: the value may also be None (which equals no string) -- only for uses as a KEY / attribute name"""
+        if isinstance(node, ast.Constant):
+            if node.value is None and none_ok:
+                return frozenset()
+            return frozenset([node.value]) if isinstance(node.value, str) else None
+        if isinstance(node, ast.IfExp):
+            a, b = self.strs(node.body, ctx, none_ok), self.strs(node.orelse, ctx, none_ok)
+            return None if a is None or b is None or len(a | b) > self.MAX_STRS else a | b
+        if isinstance(node, ast.Name) and isinstance(node.ctx, ast.Load):
+            v = dict(ctx.consts).get(node.id)
+            if isinstance(v, tuple) and v and v[0] == "s":
+                return frozenset([v[1]]) if self.is_initial_read(ctx.func, node) else None
+            return self._loop_strs(node, ctx, none_ok)
+        return None
+
+    def _single_binding(self, func, name):
+        """the one statement / comprehension that binds `name` in func (a non-parameter bound exactly once), else None"""
+        cache = func.__dict__.setdefault("_single", {})
+        if name in cache:
+            return cache[name]
+        res = None
+        binds, walrus = self._bindings(func)
+        a = func.node.args
+        params = {x.arg for x in a.posonlyargs + a.args + a.kwonlyargs} | ({a.vararg.arg} if a.vararg else set()) | ({a.kwarg.arg} if a.kwarg else set())
+        if name not in params and name not in walrus and len(binds.get(name, ())) == 1:
+            for n in ast.walk(func.node):
+                tgts = []
+                if isinstance(n, (ast.For, ast.AsyncFor)):
+                    tgts = [(n.target, n)]
+                elif isinstance(n, (ast.ListComp, ast.SetComp, ast.DictComp, ast.GeneratorExp)):
+                    tgts = [(g.target, (n, g)) for g in n.generators]
+                elif isinstance(n, ast.Assign) and len(n.targets) == 1:
+                    tgts = [(n.targets[0], n)]
+                for t, owner in tgts:
+                    if isinstance(t, ast.Name) and t.id == name:
+                        res = (owner, None)
+                    elif isinstance(t, (ast.Tuple, ast.List)):
+                        for i, e in enumerate(t.elts):
+                            if isinstance(e, ast.Name) and e.id == name:
+                                res = (owner, (i, len(t.elts)))
+        cache[name] = res
+        return res
+
+    def _loop_strs(self, node, ctx, none_ok=False):
+        func = ctx.func
+        if isinstance(func.node, ast.Lambda):
+            return None
+        sb = self._single_binding(func, node.id)
+        if sb is None:
+            return None
+        owner, idx = sb
+        pos = (node.lineno, node.col_offset)
+        if isinstance(owner, (ast.For, ast.AsyncFor)):
+            if not owner.body or not ((owner.body[0].lineno, owner.body[0].col_offset) <= pos <= (owner.body[-1].end_lineno, owner.body[-1].end_col_offset)):
+                return None  # after the loop the variable keeps its last value (or is unbound): not handled
+            return self.str_collection(owner.iter, ctx, idx)
+        if isinstance(owner, tuple):
+            comp, gen = owner
+            it = gen.iter
+            if (it.lineno, it.col_offset) <= pos <= (it.end_lineno, it.end_col_offset):
+                return None
+            if not ((comp.lineno, comp.col_offset) <= pos <= (comp.end_lineno, comp.end_col_offset)):
+                return None
+            return self.str_collection(gen.iter, ctx, idx)
+        if isinstance(owner, ast.Assign) and idx is None and pos > (owner.end_lineno, owner.end_col_offset):
+            pm = self._parents(func)
+            if pm.get(owner) is func.node:  # a top-level statement executed exactly once before the read
+                return self.strs(owner.value, ctx, none_ok) if not isinstance(owner.value, ast.Name) else None
+        return None
+
+    @staticmethod
+    def _const_strs(elts):
+        if elts and all(isinstance(e, ast.Constant) and isinstance(e.value, str) for e in elts):
+            return frozenset(e.value for e in elts)
+        return None
+
+    def str_collection(self, e, ctx, idx=None, depth=0):
+        """strings yielded by iterating `e` (idx None) or found at position idx=(i, n) of the n-tuples it yields"""
+        if depth > 4:
+            return None
+        if idx is None:
+            if isinstance(e, (ast.Tuple, ast.List, ast.Set)):
+                return self._const_strs(e.elts)
+            if isinstance(e, ast.Dict):
+                return self._const_strs(e.keys) if all(k is not None for k in e.keys) else None
+            if isinstance(e, ast.Name):
+                v = dict(ctx.consts).get(e.id)
+                if isinstance(v, tuple) and v and v[0] == "S":
+                    return frozenset(v[1]) if self.is_initial_read(ctx.func, e) else None
+                lv = self._local_literal(e, ctx)
+                if lv is not None:
+                    return self.str_collection(lv, ctx, None, depth + 1)
+                return self._global_strs(e, ctx)
+            if isinstance(e, ast.Call) and not e.keywords:
+                if isinstance(e.func, ast.Name) and e.func.id in ("sorted", "list", "tuple", "set", "frozenset", "reversed") and len(e.args) == 1 \
+                        and self.lookup(e.func.id, ctx) is None and e.func.id not in ctx.func.module.__dict__:
+                    return self.str_collection(e.args[0], ctx, None, depth + 1)
+                if isinstance(e.func, ast.Attribute) and e.func.attr == "keys" and not e.args:
+                    return self.str_collection(e.func.value, ctx, None, depth + 1)
+            return None
+        i, n = idx
+        if isinstance(e, ast.Call) and not e.keywords:
+            if isinstance(e.func, ast.Attribute) and e.func.attr == "items" and not e.args and n == 2 and i == 0:
+                return self.str_collection(e.func.value, ctx, None, depth + 1)
+            if isinstance(e.func, ast.Name) and e.func.id == "enumerate" and len(e.args) == 1 and n == 2 and i == 1 and self.lookup("enumerate", ctx) is None:
+                return self.str_collection(e.args[0], ctx, None, depth + 1)
+            if isinstance(e.func, ast.Name) and e.func.id in ("zip", "zip_strict") and len(e.args) == n and not any(isinstance(a, ast.Starred) for a in e.args):
+                return self.str_collection(e.args[i], ctx, None, depth + 1)
+        if isinstance(e, (ast.Tuple, ast.List)) and all(isinstance(t, ast.Tuple) and len(t.elts) == n for t in e.elts):
+            return self._const_strs([t.elts[i] for t in e.elts])
+        return None
+
+    def _local_literal(self, name_node, ctx):
+        """`x` whose only binding is `x = <display>` at the top level of the function, executed before the read,
+        and which is used nowhere else except to be read from (iteration, .items()/.keys()/.values()/.get(),
+        subscript load, `in`): the display itself."""
+        func = ctx.func
+        if isinstance(func.node, ast.Lambda):
+            return None
+        sb = self._single_binding(func, name_node.id)
+        if sb is None or sb[1] is not None or not isinstance(sb[0], ast.Assign):
+            return None
+        st = sb[0]
+        pm = self._parents(func)
+        if pm.get(st) is not func.node or not isinstance(st.value, (ast.Dict, ast.Tuple, ast.List, ast.Set)):
+            return None
+        if (name_node.lineno, name_node.col_offset) <= (st.end_lineno, st.end_col_offset):
+            return None
+        for n in ast.walk(func.node):
+            if isinstance(n, ast.Name) and n.id == name_node.id and isinstance(n.ctx, ast.Load):
+                par = pm.get(n)
+                ok = False
+                if isinstance(par, ast.Attribute) and par.attr in ("items", "keys", "values", "get") and isinstance(pm.get(par), ast.Call) and pm[par].func is par:
+                    ok = True
+                elif isinstance(par, ast.Subscript) and par.value is n and isinstance(par.ctx, ast.Load):
+                    ok = True
+                elif isinstance(par, (ast.For, ast.comprehension)) and par.iter is n:
+                    ok = True
+                elif isinstance(par, ast.Compare) and n in par.comparators and all(isinstance(o, (ast.In, ast.NotIn)) for o in par.ops):
+                    ok = True
+                if not ok:
+                    return None
+        return st.value
+
+    def _global_strs(self, e, ctx):
+        """a module-level tuple / list / set / frozenset / dict(keys) of strings, read through a global name that is
+        not shadowed; valid as long as analysed code never mutates that object (checked at the fixpoint: solve())"""
+        if self.lookup(e.id, ctx) is not None:
+            return None
+        py = ctx.func.module.__dict__.get(e.id, self)
+        if not isinstance(py, (tuple, list, set, frozenset, dict)) or not py or len(py) > 200:
+            return None
+        if not all(isinstance(x, str) for x in py):
+            return None
+        if id(py) in self.open_globs:
+            return None
+        self.assumed_const_globs.add(id(py))
+        return frozenset(py)
 
     # ---- reads that certainly see the value a parameter had when the function was entered -----------------------
     def _bindings(self, func):
@@ -675,10 +885,11 @@ class Analysis:
             if node.lineno > lt[1]:
                 return self.ev(lt[2], ctx)
         if self.is_initial_read(ctx.func, node):
-            return set(self.V[(ctx.key, node.id + "@in")])
+            r = set(self.V[(ctx.key, node.id + "@in")])
+            return self.apply_narrow(r, ctx, node.id) if self.narrow and not self.deferred else r
         r = self.lookup(node.id, ctx, node.lineno)
         if r is not None:
-            return set(r)
+            return self.apply_narrow(set(r), ctx, node.id) if self.narrow and not self.deferred else set(r)
         mod = ctx.func.module
         if node.id in mod.__dict__:
             return self.wrap_py(mod.__dict__[node.id], f"{mod.__name__}.{node.id}")
@@ -752,6 +963,42 @@ class Analysis:
                     # library objects hand their constructor arguments back only through the catalogued
                     # protocols: keyword-named attributes, pens' output pen, container elements)
                     out.add(o)
+        return out
+
+    def getattr_any(self, objs, node, ctx):
+        """getattr(o, <unknown name>): any attribute of o -- everything stored on it, every attribute of its class
+        (methods bound), and for a module / class object everything defined in it."""
+        out = set()
+        for o in objs:
+            if o.kind in ("SRC", "GS"):
+                out.add(o)
+                continue
+            if o.kind == "NONE":
+                continue
+            for a in self.F.attrs_of(o):
+                if a != "[]" and not (isinstance(a, str) and (a.startswith("k:") or a.startswith("dunder:"))) and not isinstance(a, tuple):
+                    out |= self.F[(o, a)]
+            if o.kind == "inst":
+                for k in o.py.__mro__:
+                    if k is object:
+                        continue
+                    for nm, v in list(k.__dict__.items()):
+                        if nm.startswith("__") and nm.endswith("__"):
+                            continue
+                        out |= self.bind(v, o, k, nm)
+            elif o.kind == "cls":
+                for k in o.py.__mro__:
+                    if k is object:
+                        continue
+                    for nm in list(k.__dict__):
+                        if not (nm.startswith("__") and nm.endswith("__")):
+                            out |= self.getattr_objs({o}, nm, node, ctx)
+            elif o.kind == "mod":
+                for nm, v in list(vars(o.py).items()):
+                    if not nm.startswith("__"):
+                        out |= self.wrap_py(v, f"{o.py.__name__}.{nm}")
+            elif o.kind in ("ext", "glob"):
+                out.add(o)  # unknown attribute of a library object: part of its own state
         return out
 
     def bind(self, v, selfobj, owner, name):
@@ -888,6 +1135,56 @@ class Analysis:
         self.strong_reads.add((self.site(node)[0], node.lineno, f"{x}.{f}"))
         return self.ev(found.value, ctx)
 
+    CTYPES = {"list": list, "listcomp": list, "sorted": list, "set": set, "setcomp": set, "tuple": tuple, "namedtuple": tuple, "dict": dict,
+              "dictcomp": dict, "OrderedDict": dict, "defaultdict": dict, "Counter": dict, "frozenset": frozenset, "*args": tuple, "**kwargs": dict,
+              "row": tuple, "starred": list}
+
+    def pytype_of(self, o):
+        """the python class of the value an abstract object stands for, when that is certain (else None)"""
+        if o.kind == "inst":
+            return o.py
+        if o.kind == "cont" and isinstance(o.key, tuple):
+            return self.CTYPES.get(o.key[-1])
+        if o.kind == "NONE":
+            return type(None)
+        if o.kind == "cls":
+            return type(o.py)
+        if o.kind == "func":
+            return types.FunctionType if (isinstance(o.py, Func) or isinstance(o.py, types.FunctionType)) else None
+        if o.kind == "bound":
+            return types.MethodType
+        if o.kind == "mod":
+            return types.ModuleType
+        return None
+
+    def instance_verdict(self, o, classes):
+        """True / False if `isinstance(value of o, classes)` is certain, None otherwise"""
+        t = self.pytype_of(o)
+        if t is None:
+            return None
+        try:
+            return bool(issubclass(t, tuple(classes)))
+        except TypeError:
+            return None
+
+    def class_tuple(self, node, ctx):
+        """the classes named by the second argument of isinstance (a class or a tuple display of classes), else None"""
+        elts = node.elts if isinstance(node, ast.Tuple) else [node]
+        out = []
+        for e in elts:
+            vs = self.ev(e, ctx)
+            if len(vs) != 1:
+                return None
+            (c,) = vs
+            if c.kind != "cls" or not isinstance(c.py, type):
+                return None
+            if isinstance(e, ast.Name) and self.lookup(e.id, ctx) is not None:
+                return None  # a local variable holding a class: not a fixed name
+            out.append(c.py)
+        return out or None
+
+    SCALAR_TYPES = (str, bytes, int, float, bool, complex)
+
     def classes_of(self, objs):
         out = set()
         for o in objs:
@@ -908,22 +1205,18 @@ class Analysis:
                 continue
             elif o.kind == "glob":
                 out |= self.glob_elements(o) | self.F[(o, "[]")]
+                for a in self.F.keyed.get(o, ()):
+                    out |= self.F[(o, a)]
             elif o.kind == "attrs":
                 for oo in (o.py, o):
                     for a in self.F.attrs_of(oo):
                         out |= self.F[(oo, a)]
             else:
-                out |= self.F[(o, "[]")]
-                if o.kind == "cont":
-                    for a in self.F.keyed.get(o, ()):
-                        out |= self.F[(o, a)]
-                elif o.kind == "inst":
-                    # an instance whose class implements the container protocol itself: what __getitem__ /
-                    # __next__ return and what the iterator returned by __iter__ yields
-                    out |= self.F[(o, "dunder:__getitem__")] | self.F[(o, "dunder:__next__")] | self.F[(o, "dunder:__missing__")]
-                    it = self.F[(o, "dunder:__iter__")]
-                    if it:
-                        out |= self.elements({x for x in it if x is not o})
+                # (an instance whose class implements the container protocol itself: also what __getitem__ /
+                # __next__ return and what the iterator returned by __iter__ yields)
+                out |= self.elements_unkeyed(o)
+                for a in self.F.keyed.get(o, ()):
+                    out |= self.F[(o, a)]
         return out
 
     def e_Subscript(self, node, ctx):
@@ -931,7 +1224,60 @@ class Analysis:
         base = self.ev(node.value, ctx)
         if isinstance(node.slice, ast.Slice):
             return self.new_cont(node, self.elements(base), "slice")
+        keys = self.strs(node.slice, ctx, none_ok=True)
+        if keys is not None:
+            return self.keyed_read(base, keys)
+        idx = node.slice.value if isinstance(node.slice, ast.Constant) and isinstance(node.slice.value, int) and not isinstance(node.slice.value, bool) else None
+        if idx is not None:
+            # t[i] of a tuple whose length is known (tuple display, zip row, *args of a call without starred
+            # arguments, named tuple): tuples are immutable, so position i holds exactly what was put there
+            out = set()
+            for o in base:
+                if o.kind == "cont" and isinstance(o.py, int) and not isinstance(o.py, bool):
+                    j = idx if idx >= 0 else o.py + idx
+                    if 0 <= j < o.py:
+                        out |= self.F[(o, ("pos", j))]
+                else:
+                    out |= self.elements({o})
+            return out
         return self.elements(base)
+
+    def keyed_read(self, objs, keys):
+        """o[k] for a string key k in `keys`: what was stored under that very key (field "k:<key>") or under an
+        unknown key (field "[]"); entries stored under OTHER constant keys cannot be the result."""
+        out = set()
+        for o in objs:
+            if o.kind in ("SRC", "GS"):
+                out.add(o)
+            elif o.kind in ("NONE", "cls", "mod", "func", "bound"):
+                continue
+            elif o.kind == "glob":
+                out |= self.F[(o, "[]")]
+                for k in keys:
+                    out |= self.F[(o, "k:" + k)]
+                    if isinstance(o.py, dict):
+                        if k in o.py:
+                            out |= self.wrap_py(o.py[k], f"{o.label.split(' ', 2)[-1]}[{k!r}]")
+                    else:
+                        out |= self.glob_elements(o)
+            elif o.kind == "attrs":
+                out |= self.F[(o, "[]")] | self.F[(o.py, "*")]
+                for k in keys:
+                    out |= self.F[(o.py, k)] | self.F[(o, "k:" + k)]
+            else:
+                out |= self.elements_unkeyed(o)
+                for k in keys:
+                    out |= self.F[(o, "k:" + k)]
+        return out
+
+    def elements_unkeyed(self, o):
+        out = set(self.F[(o, "[]")])
+        if o.kind == "inst":
+            out |= self.F[(o, "dunder:__getitem__")] | self.F[(o, "dunder:__next__")] | self.F[(o, "dunder:__missing__")]
+            it = self.F[(o, "dunder:__iter__")]
+            if it:
+                out |= self.elements({x for x in it if x is not o})
+        return out
 
     def rows(self, node, columns, what):
         """Iterable of fixed-arity tuples (zip / enumerate / dict.items): one abstract row with positional
@@ -950,19 +1296,20 @@ class Analysis:
         self.add(self.F[(o, "[]")], elems)
         return {o}
 
-    def e_List(self, node, ctx):
+    def e_List(self, node, ctx, what="list"):
         el = set()
         for e in node.elts:
             if isinstance(e, ast.Starred):
                 el |= self.elements(self.ev(e.value, ctx))
             else:
                 el |= self.ev(e, ctx)
-        return self.new_cont(node, el, "list")
+        return self.new_cont(node, el, what)
 
-    e_Set = e_List
+    def e_Set(self, node, ctx):
+        return self.e_List(node, ctx, "set")
 
     def e_Tuple(self, node, ctx):
-        r = self.e_List(node, ctx)
+        r = self.e_List(node, ctx, "tuple")
         if not any(isinstance(e, ast.Starred) for e in node.elts):
             (o,) = r
             o.py = len(node.elts)  # arity: positional fields are tracked
@@ -978,8 +1325,10 @@ class Analysis:
                 el |= self.elements(self.ev(v, ctx))
             else:
                 self.ev(k, ctx)  # keys are (hashable, hence immutable) values: not tracked as elements
-                if isinstance(k, ast.Constant) and isinstance(k.value, str):
-                    keyed.append((k.value, self.ev(v, ctx)))
+                ks = self.strs(k, ctx)
+                if ks:
+                    vv = self.ev(v, ctx)
+                    keyed.extend((kk, vv) for kk in ks)
                 else:
                     el |= self.ev(v, ctx)
         r = self.new_cont(node, el, "dict")
@@ -997,12 +1346,19 @@ class Analysis:
         el = set()
         for e in elts:
             el |= self.ev(e, ctx)
-        return self.new_cont(node, el, "comp")
+        return self.new_cont(node, el, {ast.ListComp: "listcomp", ast.SetComp: "setcomp", ast.DictComp: "dictcomp", ast.GeneratorExp: "genexp"}[type(node)])
 
     def e_ListComp(self, node, ctx):
         return self.comp(node, ctx, [node.elt])
 
-    e_SetComp = e_GeneratorExp = e_ListComp
+    e_SetComp = e_ListComp
+
+    def e_GeneratorExp(self, node, ctx):
+        self.deferred += 1  # its body runs when it is consumed: narrowings of the defining point do not apply
+        try:
+            return self.comp(node, ctx, [node.elt])
+        finally:
+            self.deferred -= 1
 
     def e_DictComp(self, node, ctx):
         return self.comp(node, ctx, [node.value])
@@ -1249,14 +1605,29 @@ class Analysis:
         el = self.F[(o, "[]")]
         if name == "sort" and "key" in kwargs:
             self.invoke_callbacks(kwargs["key"][1] | {o}, node, self.cur)  # xs.sort(key=f) calls f on the elements
+        keys = (self.strs(args[0][0], self.cur) or None) if args and args[0][0] not in (None, "*") and name in ("setdefault", "__setitem__", "get", "pop", "__getitem__") else None
         if name in ("setdefault", "__setitem__", "insert"):
             # first argument is a key / position, not an element
             self.mutate({o}, node, f".{name}()")
             rest = set()
             for _, s_ in args[1:]:
                 rest |= s_
+            if keys is not None:
+                for kk in keys:
+                    self.add(self.F[(o, "k:" + kk)], rest)
+                return self.keyed_read({o}, keys) if name == "setdefault" else set()
             self.add(el, rest)
             return self.elements({o}) if name == "setdefault" else set()
+        if keys is not None and name in ("get", "pop", "__getitem__"):
+            if name == "pop":
+                self.mutate({o}, node, f".{name}()")
+            r = self.keyed_read({o}, keys)
+            for _, s_ in args[1:]:
+                r |= s_
+            r |= (kwargs.get("default") or (None, set()))[1]
+            if name == "get" and len(args) < 2 and "default" not in kwargs:
+                r = r | {self.NONE}
+            return r
         if name in ("send", "throw") and o.kind == "cont" and o.key[-1] == "gen":
             self.add(self.F[(o, "sent")], A)
             return self.elements({o})
@@ -1584,6 +1955,8 @@ class Analysis:
                 if not isinstance(v, types.FunctionType):
                     continue
                 seen.add(nm)
+                if not (getattr(v, "__module__", None) or "").startswith(self.pkg):
+                    continue  # inherited machinery of a library base class (Enum.__new__, ...)
                 if v.__code__.co_filename.startswith("<"):
                     continue  # synthesised by dataclasses / namedtuple: reads and compares fields only
                 if nm in UNSUPPORTED_DUNDERS:
@@ -1634,7 +2007,7 @@ class Analysis:
             return self.rows(node, [set(), r], name)
         if name in MUTATING_FUNCS:
             deep = set(args[0][1]) if args else set()  # the first positional argument is what gets modified
-            for _ in range(3):
+            for _ in range(MUTATING_FUNCS[name]):
                 deep |= self.elements(deep)
             self.mutate(deep, node, f"{name}(…)")
             return self.new_ext(node, set(), through=False)
@@ -1666,20 +2039,12 @@ class Analysis:
             return self.elements(args[0][1]) | (args[1][1] if len(args) > 1 else set()) if args else set()
         if name == "getattr":
             out = set()
-            if len(args) >= 2 and isinstance(args[1][0], ast.Constant):
-                out |= self.getattr_objs(args[0][1], args[1][0].value, node, ctx)
+            names = self.strs(args[1][0], ctx, none_ok=True) if len(args) >= 2 and args[1][0] not in (None, "*") else None
+            if names is not None:
+                for nm in names:
+                    out |= self.getattr_objs(args[0][1], nm, node, ctx)
             elif args:
-                # computed attribute name: anything stored on the object / reachable from it
-                for o in args[0][1]:
-                    if o.kind in ("SRC", "GS"):
-                        out.add(o)
-                    for a in self.F.attrs_of(o):
-                        out |= self.F[(o, a)]
-                    if o.kind == "inst":
-                        for k in o.py.__mro__:
-                            for nm, v in k.__dict__.items():
-                                if isinstance(v, types.FunctionType) and k.__module__.startswith(self.pkg):
-                                    out |= self.bind(v, o, k, nm)
+                out |= self.getattr_any(args[0][1], node, ctx)
             if len(args) > 2:
                 out |= args[2][1]
             return out
@@ -1687,11 +2052,15 @@ class Analysis:
             if args:
                 self.mutate(args[0][1], node, "setattr()")
                 val = args[2][1] if len(args) > 2 else set()
+                names = (self.strs(args[1][0], ctx) or None) if len(args) >= 2 and args[1][0] not in (None, "*") else None
                 for o in args[0][1]:
-                    if len(args) >= 2 and isinstance(args[1][0], ast.Constant):
-                        self.add(self.F[(o, args[1][0].value)], val)
+                    if o.kind in ("SRC", "GS", "NONE"):
+                        continue
+                    if names is not None:
+                        for nm in names:
+                            self.add(self.F[(o, nm)], val)
                     else:
-                        self.add(self.F[(o, "*")], val)
+                        self.add(self.F[(o, "*")], val)  # read back by EVERY attribute read of o
             return set()
         if name == "delattr":
             if args:
@@ -1776,19 +2145,35 @@ class Analysis:
         a = fnode.args
         params = [x.arg for x in a.posonlyargs + a.args]
         kwonly = [x.arg for x in a.kwonlyargs]
-        # constants of branching parameters select the callee context
+        # constants of branching parameters select the callee context; so do string constants (attribute names,
+        # keys) and literal collections of strings. This is plain cloning of the callee per constant argument:
+        # inside a clone the parameter has that value until it is rebound (is_initial_read).
         consts = {}
-        if args is not None:
+        multi = {}  # parameter -> several possible strings: one clone per string
+        if args is not None and ctx is not None:
+            bound_args = []
             for p, (an, _s) in zip(params, args):
-                if p in fn.branch_params and an is not None and an != "*" and ctx is not None:
+                if an == "*":
+                    break  # positions after a starred argument are not known
+                bound_args.append((p, an))
+            bound_args += [(k, an) for k, (an, _s) in (kwargs or {}).items() if k in params or k in kwonly]
+            for p, an in bound_args:
+                if an is None:
+                    continue
+                if p in fn.branch_params:
                     v = self.const(an, ctx)
                     if v is not ... and (v is None or isinstance(v, bool)):
                         consts[p] = v
-            for k, (an, _s) in (kwargs or {}).items():
-                if k in fn.branch_params and ctx is not None:
-                    v = self.const(an, ctx)
-                    if v is not ... and (v is None or isinstance(v, bool)):
-                        consts[k] = v
+                        continue
+                sv = self.strs(an, ctx)
+                if sv is not None and len(sv) == 1:
+                    consts[p] = ("s", next(iter(sv)))
+                elif sv is not None and 2 <= len(sv) <= self.MAX_STRS:
+                    multi[p] = sorted(sv)
+                else:
+                    cv = self.str_collection(an, ctx)
+                    if cv is not None and len(cv) <= 4 * self.MAX_STRS:
+                        consts[p] = ("S", tuple(sorted(cv)))
             # defaults of branching parameters that are not passed
             if not star_kw:
                 dflt = dict(zip(params[len(params) - len(a.defaults):], a.defaults)) if a.defaults else {}
@@ -1800,6 +2185,26 @@ class Analysis:
                 for p in fn.branch_params:
                     if p not in passed and p in dflt and not has_star and isinstance(dflt[p], ast.Constant) and (dflt[p].value is None or isinstance(dflt[p].value, bool)):
                         consts[p] = dflt[p].value
+        if a.vararg and args is not None and not any(an == "*" for an, _ in args):
+            # a call without starred arguments passes a known number of extra positional arguments: one clone of
+            # the callee per (number, call site) -- in it *args is a tuple of exactly that length
+            consts["*n"] = ("n", max(0, len(args) - len(params)))
+            if ctx is not None and node is not None:
+                consts["*site"] = ("at", ctx.func.qual, getattr(node, "lineno", 0), getattr(node, "col_offset", 0))
+        if multi:
+            # several possible strings for one parameter (a loop over a literal): analyse the call once per string
+            # (only the first such parameter is split, the others stay unknown)
+            p0 = sorted(multi)[0]
+            out = set()
+            for sval in multi[p0]:
+                out |= self._call_ctx(fn, dict(consts, **{p0: ("s", sval)}), pos, kw, node, ctx, args, kwargs, star_kw)
+            return out
+        return self._call_ctx(fn, consts, pos, kw, node, ctx, args, kwargs, star_kw)
+
+    def _call_ctx(self, fn, consts, pos, kw, node, ctx, args, kwargs, star_kw):
+        a = fn.node.args
+        params = [x.arg for x in a.posonlyargs + a.args]
+        kwonly = [x.arg for x in a.kwonlyargs]
         ckey = (fn.qual, tuple(sorted(consts.items(), key=lambda kv: kv[0])))
         if ckey not in self.ctxs:
             c = Ctx(fn, tuple(sorted(consts.items(), key=lambda kv: kv[0])))
@@ -1828,6 +2233,11 @@ class Analysis:
         if a.vararg:
             vo = self.obj("cont", (callee.key, "*args"), None, f"*args of {fn.qual}")
             self.add(self.F[(vo, "[]")], extra)
+            nfix = dict(callee.consts).get("*n")
+            if nfix is not None and args is not None:
+                vo.py = nfix[1]  # arity: positions are tracked (tuples are immutable)
+                for i, (an, s_) in enumerate(args[len(params):]):
+                    self.add(self.F[(vo, ("pos", i))], s_)
             bindp(a.vararg.arg, {vo})
         kextra = set()
         for k, s in kw.items():
@@ -1941,15 +2351,22 @@ class Analysis:
             base = self.ev(target.value, ctx)
             self.ev(target.slice, ctx) if not isinstance(target.slice, ast.Slice) else None
             self.mutate({o for o in base if o.kind != "attrs"}, target, "[…] = …")
+            keys = (self.strs(target.slice, ctx) or None) if not isinstance(target.slice, ast.Slice) else None
             for o in base:
+                if o.kind in ("SRC", "GS", "NONE"):
+                    continue
                 if o.kind == "attrs":
-                    if isinstance(target.slice, ast.Constant) and isinstance(target.slice.value, str):
-                        self.add(self.F[(o, "k:" + target.slice.value)], val)
+                    # x.__dict__[k] = v IS x.k = v
+                    self.mutate({o.py}, target, "__dict__[…] = …")
+                    if keys is not None:
+                        for kk in keys:
+                            self.add(self.F[(o.py, kk)], val)
                     else:
-                        self.add(self.F[(o, "[]")], val)
-                elif o.kind == "cont" and isinstance(target.slice, ast.Constant) and isinstance(target.slice.value, str):
-                    self.add(self.F[(o, "k:" + target.slice.value)], val)
-                elif o.kind not in ("SRC", "GS", "NONE"):
+                        self.add(self.F[(o.py, "*")], val)
+                elif keys is not None:
+                    for kk in keys:
+                        self.add(self.F[(o, "k:" + kk)], val)
+                else:
                     self.add(self.F[(o, "[]")], val)
         elif isinstance(target, ast.Starred):
             self.assign(target.value, val, ctx, node)
@@ -1958,14 +2375,110 @@ class Analysis:
         """Analyse a block; returns True when the block certainly does not complete normally (its last reachable
         statement is a return / raise / continue / break, or an `if` all of whose live branches end that way):
         the statements after such a statement can never execute and are skipped."""
-        saved = dict(self.alias)
         ended = False
-        for s in stmts:
-            if self.stmt(s, ctx):
+        depth = len(self.narrow)
+        for i, s in enumerate(stmts):
+            if isinstance(s, ast.If):
+                c = self.const(s.test, ctx)
+                self.ev(s.test, ctx)
+                e1 = e2 = True
+                if c is ... or c:
+                    e1 = self.run_narrowed(s.test, True, s.body, ctx)
+                if c is ... or not c:
+                    e2 = self.run_narrowed(s.test, False, s.orelse, ctx)
+                if e1 and e2:
+                    ended = True
+                    break
+                # one branch never falls through: whoever reaches the next statement came through the other one
+                rest = stmts[i + 1:]
+                if e1 != e2 and rest:
+                    # (the variable must not be rebound in the branch that was passed through either)
+                    self.narrow.extend(self.narrowings(s.test, ctx, positive=e2, region=rest + (s.body if e2 else s.orelse)))
+            elif self.stmt(s, ctx):
                 ended = True
                 break
-        self.alias = saved  # a post-loop alias is valid until the end of the block that contains the loop
+        del self.narrow[depth:]
         return ended
+
+    def run_narrowed(self, test, positive, body, ctx):
+        depth = len(self.narrow)
+        self.narrow.extend(self.narrowings(test, ctx, positive, body))
+        try:
+            return self.run_body(body, ctx)
+        finally:
+            del self.narrow[depth:]
+
+    # ---- narrowing of a local variable by the test that guards a region -----------------------------------------------
+    # In the statements guarded by `isinstance(x, C)`, `x is None`, `x` (and their negations), where x is a local
+    # variable that is not rebound anywhere inside the guarded statements, every read of x (in this function's own
+    # scope, not in a lambda / generator expression, which run later) yields a value that passed the test. The
+    # filter only drops abstract objects that CERTAINLY fail it (class of the object known). A value that is an
+    # instance of str / bytes / int / float / bool / complex is an immutable scalar: it has nothing that could be
+    # written to, so it is dropped altogether.
+    def narrowings(self, test, ctx, positive, region):
+        out = []
+        self._narrowings(test, ctx, positive, out)
+        res = []
+        for name, f in out:
+            if name in self.locals_of(ctx.func) and name not in self._bindings(ctx.func)[1] and not self._binds_in(region, name):
+                res.append((ctx.key, name, f))
+        return res
+
+    def _narrowings(self, t, ctx, positive, out):
+        if isinstance(t, ast.UnaryOp) and isinstance(t.op, ast.Not):
+            self._narrowings(t.operand, ctx, not positive, out)
+        elif isinstance(t, ast.BoolOp) and ((isinstance(t.op, ast.And) and positive) or (isinstance(t.op, ast.Or) and not positive)):
+            for v in t.values:
+                self._narrowings(v, ctx, positive, out)
+        elif isinstance(t, ast.Call) and isinstance(t.func, ast.Name) and t.func.id == "isinstance" and len(t.args) == 2 and not t.keywords \
+                and isinstance(t.args[0], ast.Name) and self.lookup("isinstance", ctx) is None and "isinstance" not in ctx.func.module.__dict__:
+            classes = self.class_tuple(t.args[1], ctx)
+            if classes:
+                out.append((t.args[0].id, ("isinstance", tuple(classes), positive)))
+        elif isinstance(t, ast.Compare) and len(t.ops) == 1 and isinstance(t.ops[0], (ast.Is, ast.IsNot)) and isinstance(t.left, ast.Name) \
+                and isinstance(t.comparators[0], ast.Constant) and t.comparators[0].value is None:
+            out.append((t.left.id, ("none", isinstance(t.ops[0], ast.Is) == positive)))
+        elif isinstance(t, ast.Name) and positive:
+            out.append((t.id, ("none", False)))  # a truthy value is not None
+
+    @staticmethod
+    def _binds_in(stmts, name):
+        for st in stmts:
+            for n in ast.walk(st):
+                if isinstance(n, ast.Name) and n.id == name and isinstance(n.ctx, (ast.Store, ast.Del)):
+                    return True
+                if isinstance(n, (ast.FunctionDef, ast.AsyncFunctionDef, ast.ClassDef)) and n.name == name:
+                    return True
+                if isinstance(n, ast.ExceptHandler) and n.name == name:
+                    return True
+                if isinstance(n, (ast.Import, ast.ImportFrom)) and any((al.asname or al.name).split(".")[0] == name for al in n.names):
+                    return True
+                if isinstance(n, (ast.MatchAs, ast.MatchStar)) and n.name == name:
+                    return True
+                if isinstance(n, ast.MatchMapping) and n.rest == name:
+                    return True
+        return False
+
+    def apply_narrow(self, vals, ctx, name):
+        for ck, nm, f in self.narrow:
+            if nm != name or ck != ctx.key:
+                continue
+            if f[0] == "isinstance":
+                _, classes, positive = f
+                if positive and all(c in self.SCALAR_TYPES for c in classes):
+                    return set()
+                keep = set()
+                for o in vals:
+                    v = self.instance_verdict(o, classes)
+                    if v is None or v == positive:
+                        keep.add(o)
+                vals = keep
+            elif f[0] == "none":
+                if f[1]:
+                    vals = {self.NONE} if any(o is self.NONE or o.kind not in DEFINITE_KINDS for o in vals) else set()
+                else:
+                    vals = {o for o in vals if o is not self.NONE}
+        return vals
 
     def stmt(self, s, ctx):
         """-> True iff control certainly does not continue with the next statement of the same block"""
@@ -1973,14 +2486,7 @@ class Analysis:
             self.stmt_(s, ctx)
             return True
         if isinstance(s, ast.If):
-            c = self.const(s.test, ctx)
-            self.ev(s.test, ctx)
-            e1 = e2 = True
-            if c is ... or c:
-                e1 = self.run_body(s.body, ctx)
-            if c is ... or not c:
-                e2 = self.run_body(s.orelse, ctx)
-            return e1 and e2
+            return self.run_body([s], ctx)
         self.stmt_(s, ctx)
         return False
 
@@ -2126,6 +2632,8 @@ class Analysis:
         self.unknown_calls.clear(); self.cut_hits.clear(); self.repo_calls.clear(); self.strong_reads.clear()
         self.unsupported.clear()
         self.dunder_insts.clear()
+        self.assumed_const_globs.clear()
+        self.mutated_globs.clear()
         self.changed = True
 
     def flag(self, node, reason):
@@ -2138,8 +2646,7 @@ class Analysis:
         """Fixpoint, then decide `x is None` tests from the final points-to sets and restart with the dead
         branches removed, until the set of decided tests is stable and re-validated by the last run."""
         for restart in range(max_restarts):
-            self._reset()
-            self.solve_once(max_rounds)
+            self._fix(max_rounds)
             # decide tests in the final state (no state change is kept from this pass)
             self.deciding = True
             self.new_decided = {}
@@ -2167,11 +2674,21 @@ class Analysis:
                 self.decided = {k: v for k, v in self.decided.items() if nd.get(k) == v}
         # no self-validating set found within the budget: fall back to no pruning at all (sound)
         self.decided = {}
-        self._reset()
-        self.solve_once(max_rounds)
+        self._fix(max_rounds)
         self.restarts = max_restarts + 1
         self.validated = False
         return self.rounds
+
+    def _fix(self, max_rounds):
+        """one fixpoint under the current decisions; repeated while a module-level collection whose contents were
+        taken as constant (strs) turns out to be mutated by analysed code (it is then treated as unknown)"""
+        while True:
+            self._reset()
+            self.solve_once(max_rounds)
+            bad = (self.assumed_const_globs & self.mutated_globs) - self.open_globs
+            if not bad:
+                return
+            self.open_globs |= bad
 
     def solve_once(self, max_rounds=60):
         rf = Func.__new__(Func)
